@@ -111,8 +111,8 @@ def _exec(job: dict, fresh: bool = False) -> dict:
     c = job["case"]
     tr = c["tr"]
     http = tr != "pipe"
-    if fresh and tr == "pipe":
-        _WORLDS.pop("pipe", None)
+    if fresh:
+        _WORLDS.pop(tr, None)
     w = _world(tr)
     del W.TRUTH_ALL[:]
     if http:
@@ -133,7 +133,7 @@ def _exec(job: dict, fresh: bool = False) -> dict:
                 else [x[0] for x in f["events"]] == ["opened", "data", "data"])
         return r
 
-    res, hung = W.with_watchdog(body, 20.0 if fresh else 6.0)
+    res, hung = W.with_watchdog(body, 40.0 if fresh else 8.0)
     truth = [t for t in W.TRUTH_ALL if t["type"]]
     srv = truth[-1] if truth else None
     o = {"nerr": 0, "nother": 0, "hung": hung, "etype": "", "srvtype": srv["type"] if srv else "", "msg_ok": False,
@@ -195,8 +195,9 @@ def work(jobs: list[dict]) -> list[dict]:
     out = []
     for job in jobs:
         r = _exec(job)
-        if job["case"]["tr"] == "pipe" and _suspicious(job["case"], r["obs"]):
-            # a verdict must not depend on what an earlier call left on the connection (that is C04's subject)
+        if r["obs"]["hung"] or (job["case"]["tr"] == "pipe" and _suspicious(job["case"], r["obs"])):
+            # a verdict must not depend on what an earlier call left on the connection (that is C04's subject),
+            # nor on a slow machine: anything odd is repeated on a fresh connection with a generous watchdog
             r2 = _exec(job, fresh=True)
             r2["info"]["first_attempt_on_shared_connection"] = r["obs"]
             r = r2
